@@ -51,7 +51,7 @@ Reset ==
   /\ fetched' = Empty /\ revOnly' = FALSE /\ staged' = {} /\ newRev' = FALSE
   /\ tombErr' = FALSE /\ stateErr' = FALSE
   /\ nRefresh' = 0 /\ nRestart' = 0 /\ nCrash' = 0 /\ nWF' = 0 /\ nRF' = 0
-  /\ seenSince' = [k \in Keys |-> None] /\ earned' = {} /\ missSince' = [k \in Keys |-> None]
+  /\ seenSince' = [k \in Keys |-> None] /\ firstEver' = [k \in Keys |-> None] /\ earned' = {} /\ missSince' = [k \in Keys |-> None]
   /\ revAcc' = {} /\ revVol' = {} /\ gT' = {} /\ gFull' = FALSE /\ gRevSet' = {}
   /\ ev' = [a |-> "Reset"]
 
